@@ -371,6 +371,11 @@ class Ev:
         if isinstance(v, Member):
             if a == "name":
                 return v.name
+            if a == "value" and getattr(self, "member_values", None) and v.name in self.member_values:
+                return self.member_values[v.name]
+            fn = self.methods.get(a)
+            if fn is not None and any(au.src(d) in ("property", "cached_property", "functools.cached_property") for d in fn.decorator_list):
+                return self.call(fn, {au.params(fn)[0]: v})          # a property of the enumeration member
             return ("bound", v, a)
         if isinstance(v, PLAIN) and a in SAFE_METHODS and hasattr(v, a):
             return getattr(v, a)
@@ -409,6 +414,33 @@ class Ev:
             except Exception as ex:
                 raise Raised(type(ex).__name__)
         raise Unknown(f"call of {au.src(e.func)}")
+
+
+# numpy's `safe` casting between the python scalar types of the attributes and fixed-width unicode (numpy.can_cast documentation):
+# bool -> int -> float -> complex never lose information; bool / int64 / float64 fit in 32 characters, complex128 needs 64
+_RANK = {bool: 0, int: 1, float: 2, complex: 3}
+
+
+def _np_can_cast(a, b, casting="safe"):
+    if casting != "safe":
+        raise Unknown(f"np.can_cast(casting={casting!r})")
+
+    def kind(x):
+        if x in _RANK:
+            return x
+        if x is str or (isinstance(x, str) and x.lstrip("<>=|").startswith("U")):
+            return "U"
+        raise Unknown(f"np.can_cast on {x!r}")
+    ka, kb = kind(a), kind(b)
+    if ka == "U":
+        return kb == "U"
+    if kb == "U":
+        return ka is not complex
+    return _RANK[ka] <= _RANK[kb]
+
+
+NUMPY = NS("np", {"can_cast": _np_can_cast, "bool_": bool, "float64": float, "int64": int, "complex128": complex})
+SAFE_BUILTINS["__np_can_cast__"] = _np_can_cast
 
 
 class _Brk(Exception):
